@@ -538,8 +538,15 @@ def _make_evalable_objectives_from_formula(
         no_relation = []
         others = {}
         for t in terms:
+            dropped = 1
             if transform_terms:
+                t_orig = t
                 t = _try_replace_unknowns(t)
+                if t is not t_orig:
+                    # The unknown factor that was divided out of this term. Terms may
+                    # only be summed back together if they lost the SAME unknown
+                    # factor: a*u + b*v is not ordered by a + b.
+                    dropped = t_orig / t
             try:
                 if not t.free_symbols & symbols_enumerated:
                     continue
@@ -548,14 +555,14 @@ def _make_evalable_objectives_from_formula(
             if t.free_symbols.isdisjoint(symbols_enumerated):
                 no_relation.append(t)
             else:
-                others.setdefault(fzs(t.free_symbols - symbols_enumerated), []).append(
-                    t
-                )
+                others.setdefault(
+                    (fzs(t.free_symbols - symbols_enumerated), dropped), []
+                ).append(t)
 
         # Charge for symbols that differ between the terms, because getting rid of those
         # would let us do fewer partitions.
-        for ot in others:
-            for ot2 in others:
+        for ot, _ in others:
+            for ot2, _ in others:
                 meddlers = ot - ot2
                 for s in meddlers:
                     meddling_symbols[s] += 1 / len(others) / len(meddlers)
@@ -567,7 +574,7 @@ def _make_evalable_objectives_from_formula(
         for n in no_relation:
             for s in n.free_symbols:
                 without_s = fzs(set(n.free_symbols) - {s})
-                if without_s not in others:
+                if not any(without_s == ot for ot, _ in others):
                     meddling_symbols[s] -= 10
 
         # Try to re-join any others if we can to reduce the number of terms. However, if
